@@ -296,7 +296,7 @@ func Run(run *vk.Run, prop string) {
 		if traces[k].preds == 0 {
 			tdrift++
 			if tdrift <= 3 {
-				fmt.Printf("DRIFT property=%s trace rejected by Trace_EndorseCommit although the property predicates hold: cfg=%+v log=%s\n", prop, traces[k].cfg, LogString(traces[k].log))
+				fmt.Fprintf(vk.Stdout, "DRIFT property=%s trace rejected by Trace_EndorseCommit although the property predicates hold: cfg=%+v log=%s\n", prop, traces[k].cfg, LogString(traces[k].log))
 			}
 		}
 	}
@@ -328,8 +328,8 @@ func sweepC15(run *vk.Run) {
 		if dry.Ret == "ok" {
 			// protobuf map fields serialise in random order, so the signed bytes of a document with
 			// more than one SNP measurement differ from run to run; digests are compared only when the
-			// document has a single serialisation.
-			deterministic := !v.Snp || v.Vmsas != 0
+			// document has a single serialisation (and the image id is given: a tool-chosen id is random).
+			deterministic := (!v.Snp || v.Vmsas != 0) && !v.AutoID
 			if len(dry.SignedDigests) != 1 || len(realO.SignedDigests) != 1 || (deterministic && !bytes.Equal(dry.SignedDigests[0], realO.SignedDigests[0])) {
 				run.Violation("dry-run-measurements-differ", "dry-run signs a different document than the real run ["+v.Name+"]",
 					map[string]any{"variant": v.Name, "dry": hexs(dry.SignedDigests), "real": hexs(realO.SignedDigests)})
